@@ -279,7 +279,7 @@ def sweep_cases(rng, tier):
         combos = list(itertools.product(PALETTE, repeat=k))
         if k == 3:
             rng.shuffle(combos)
-            combos = combos[:40 if tier == "quick" else 500]
+            combos = combos[:25 if tier == "quick" else 350]
         for combo in combos:
             own = [[S.NAMES[i]] + list(t) for i, t in enumerate(combo)]
             dom = rng.choice([[-1, 0, 1], [-1, 0, 1], [0, 1, 2]])
